@@ -139,5 +139,164 @@ def h_generate_and_check(hasform):
                       extra=dict(bounds='any declared / generated length <= 2^40; form comparison outcome symbolic'))
 
 
+
+
+
+# ------------------------------------------------------------------------------------------------ VirtualArray::array(): cache hit / miss / failed generation
+VA = 'src/libawkward/array/VirtualArray.cpp'
+
+NATIVE_VA = r'''
+#include <cstdio>
+#include <cstdlib>
+#include <stdexcept>
+#include <string>
+#include "awkward/virtual/ArrayGenerator.h"
+#include "awkward/virtual/ArrayCache.h"
+#include "awkward/array/VirtualArray.h"
+#include "awkward/array/NumpyArray.h"
+#include "awkward/Index.h"
+using namespace awkward;
+static int generated = 0;
+static ContentPtr mk(int64_t n, int64_t base) { Index64 idx(n); for (int64_t i = 0; i < n; i++) idx.data()[i] = base + i; return std::make_shared<NumpyArray>(idx); }
+class Gen : public ArrayGenerator {
+public:
+  bool fails;
+  Gen(bool f): ArrayGenerator(FormPtr(nullptr), 3), fails(f) { }
+  const ContentPtr generate() const override { generated++; return fails ? mk(1, 500) : mk(3, 500); }      // too short = rejected by generate_and_check
+  void caches(std::vector<ArrayCachePtr>&) const override { }
+  const std::string tostring_part(const std::string&, const std::string&, const std::string&) const override { return ""; }
+  const std::shared_ptr<ArrayGenerator> shallow_copy() const override { return std::make_shared<Gen>(fails); }
+  const std::shared_ptr<ArrayGenerator> with_form(const FormPtr&) const override { return shallow_copy(); }
+  const std::shared_ptr<ArrayGenerator> with_length(int64_t) const override { return shallow_copy(); }
+  bool referentially_equal(const std::shared_ptr<ArrayGenerator>&) const override { return false; }
+};
+class Cache : public ArrayCache {
+public:
+  ContentPtr held; ContentPtr stored;
+  Cache(ContentPtr h): held(h), stored(nullptr) { }
+  ContentPtr get(const std::string&) const override { return held; }
+  void set(const std::string&, const ContentPtr& v) override { stored = v; }
+  bool is_broken() const override { return false; }
+  const std::string tostring_part(const std::string&, const std::string&, const std::string&) const override { return ""; }
+};
+static const char* which(const ContentPtr& p) { if (p.get() == nullptr) return "nothing"; return p.get()->getitem_at_nowrap(0).get()->tojson(false, -1) == "100" ? "cached" : "generated"; }
+int main(int argc, char** argv) {
+  bool has_cache = atoi(argv[1]) != 0, hit = atoi(argv[2]) != 0, fails = atoi(argv[3]) != 0;
+  std::shared_ptr<Cache> cache = std::make_shared<Cache>(hit ? mk(3, 100) : ContentPtr(nullptr));
+  VirtualArray va(Identities::none(), util::Parameters(), std::make_shared<Gen>(fails), has_cache ? cache : ArrayCachePtr(nullptr), "key");
+  bool raised = false; ContentPtr out(nullptr);
+  try { out = va.array(); } catch (std::exception& e) { raised = true; }
+  printf("{\"raised\": %d, \"generated\": %d, \"returned\": \"%s\", \"stored\": \"%s\"}\n", (int)raised, generated, which(out), which(cache->stored));
+  fflush(stdout); _Exit(0);
+}
+'''
+
+
+def native_virtual(has_cache, hit, fails):
+    from . import fullnative
+    import subprocess, os, json
+    exe = fullnative.link_driver(NATIVE_VA, 'virt')
+    r = subprocess.run([exe, str(int(has_cache)), str(int(hit)), str(int(fails))], capture_output=True, text=True, timeout=30,
+                       env=dict(os.environ, ASAN_OPTIONS='detect_leaks=0', UBSAN_OPTIONS='halt_on_error=1:exitcode=87'), errors='replace')
+    try:
+        return json.loads(r.stdout.strip().splitlines()[-1])
+    except (ValueError, IndexError):
+        return dict(outcome='crash(%d)' % r.returncode, log=r.stderr[-300:])
+
+
+@guard
+def h_virtual_array(has_cache):
+    """VirtualArray::array(): a cached array is returned as it is and the generator is not run; on a miss (or without a cache) the generator's
+    checked result is returned and stored under the array's key; a generation that fails stores nothing"""
+    from .cpp01 import struct_of
+    mod = module_of(VA)
+    fo, sz, al, fields = mod.types.struct_layout(struct_of(mod, '_ZNK7awkward12VirtualArray5arrayEv'))
+    hit, genfails = z3.Bool('cache_hit'), z3.Bool('generation_fails')
+    trace = []
+
+    def ret_ptr(st, sret, p):
+        rec = st.mem.o[sret.obj]
+        rec.cells[sret.off] = (p, 8)
+        rec.cells[sret.off + 8] = (NULL, 8)
+
+    def s_get(eng, fr, ins, st, name, argv):
+        trace.append(('get', st.pc))
+        from .llbmc import ite
+        ret_ptr(st, argv[0], ite(hit, Ptr('cached', 0), NULL))
+        return None
+
+    def s_set(eng, fr, ins, st, name, argv):
+        val = eng.load(st, argv[2], '%"class.awkward::Content"*', fr.mod, 'stub')
+        trace.append(('set', st.pc, val))
+        return None
+
+    def s_gen(eng, fr, ins, st, name, argv):
+        trace.append(('generate', st.pc))
+        ret_ptr(st, argv[0], Ptr('generated', 0))
+        c = genfails
+        return ('split', c)
+    aslots, an = vtable_slots(module_of('src/libawkward/virtual/ArrayCache.cpp'), 'N7awkward10ArrayCacheE') if False else ({}, 8)
+    stubs = dict(COMMON_STUBS)
+    stubs.update({'vf$cache0': s_get, 'vf$cache1': s_set, 'vf$cache2': (lambda *a: z3.BitVecVal(0, 1)), 'vf$cache*': nodeh.s_empty_string,      # no virtual destructor: get, set, is_broken, tostring_part
+                  '_ZN7awkward14ArrayGenerator18generate_and_checkEv': s_gen,
+                  '_ZN7awkward9check_keyERKNSt7__cxx1112basic_stringIcSt11char_traitsIcESaIcEEE': lambda *a: z3.BitVecVal(0, 32),
+                  '_ZN7awkward6kernel25fully_qualified_cache_keyENS0_3libERKNSt7__cxx1112basic_stringIcSt11char_traitsIcESaIcEEE': nodeh.s_empty_string,
+                  '_ZNK7awkward12VirtualArray9cache_keyB5cxx11Ev': nodeh.s_empty_string})
+    m = MCtx([VA], unwind=6, stubs=stubs)
+    m.record('cachevt', {8 * j: (Ptr(('func', 'vf$cache%d' % j), 0), 8) for j in range(8)}, const=True)
+    m.record('cache', {0: (Ptr('cachevt', 0), 8)}, const=True)
+    m.record('cached', {0: (NULL, 8)}, const=True)
+    m.record('generated', {0: (NULL, 8)}, const=True)
+    m.record('gen', {0: (NULL, 8)}, const=True)
+    cells = {0: (NULL, 8), fo[1]: (Ptr('gen', 0), 8), fo[1] + 8: (NULL, 8), fo[2]: (Ptr('cache', 0) if has_cache else NULL, 8), fo[2] + 8: (NULL, 8)}
+    for k_ in range(len(fo)):
+        if fields[k_].strip() == 'i32':
+            cells[fo[k_]] = (z3.BitVecVal(0, 32), 4)
+    # cache_key_: an empty small string
+    for k_ in range(len(fo)):
+        if 'basic_string' in fields[k_]:
+            cells.update({fo[k_]: (Ptr('va', fo[k_] + 16), 8), fo[k_] + 8: (BV(0), 8), fo[k_] + 16: (z3.BitVecVal(0, 8), 1)})
+    this = m.record('va', cells, const=True)
+    m.record('ret', {})
+    out = m.call('_ZNK7awkward12VirtualArray5arrayEv', [Ptr('ret', 0), this])
+    ran = z3.Or([t[1] for t in trace if t[0] == 'generate'] + [z3.BoolVal(False)])
+    sets = [t for t in trace if t[0] == 'set']
+    stored = z3.Or([t[1] for t in sets] + [z3.BoolVal(False)])
+    rp = m.cell('ret', 0)
+
+    def is_obj(p, name):
+        return z3.Or([g for g, q in ptr_cases(p) if q.obj == name] + [z3.BoolVal(False)])
+    usehit = z3.And(hit, z3.BoolVal(has_cache))
+    obls = [('the generator runs exactly when nothing is cached', ran != z3.Not(usehit)),
+            ('raises exactly when the generation that is needed fails', z3.simplify(out.raised) != z3.And(z3.Not(usehit), genfails)),
+            ('a cached array is returned as it is', z3.And(usehit, z3.Not(out.raised), z3.Not(is_obj(rp, 'cached')))),
+            ('on a miss the generated array is returned', z3.And(z3.Not(usehit), z3.Not(out.raised), z3.Not(is_obj(rp, 'generated')))),
+            ('a failed generation stores nothing in the cache', z3.And(out.raised, stored))]
+    if has_cache:
+        obls.append(('a successful call leaves the returned array in the cache', z3.And(z3.Not(out.raised), z3.Not(stored))))
+        for t in sets:
+            obls.append(('what is stored is what is returned', z3.And(t[1], z3.Not(out.raised), z3.Not(z3.Or(z3.And(is_obj(t[2], 'cached'), is_obj(rp, 'cached')), z3.And(is_obj(t[2], 'generated'), is_obj(rp, 'generated')))))))
+    else:
+        obls.append(('without a cache nothing is stored', stored))
+    def replay(model, ent):
+        H, F = z3.is_true(model.eval(hit, model_completion=True)), z3.is_true(model.eval(genfails, model_completion=True))
+        res = native_virtual(has_cache, H, F)
+        use = has_cache and H
+        want = dict(raised=int((not use) and F), generated=int(not use), returned=('cached' if use else 'generated'))
+        payload = dict(has_cache=has_cache, cache_hit=H, generation_fails=F, native=res, expected=want)
+        bad = res.get('raised') != want['raised'] or res.get('generated') != want['generated']
+        if not want['raised']:
+            bad = bad or res.get('returned') != want['returned'] or (has_cache and res.get('stored') != want['returned'])
+        else:
+            bad = bad or res.get('stored') not in (None, 'nothing')
+        if not has_cache and res.get('stored') not in (None, 'nothing'):
+            bad = True
+        if bad:
+            return True, 'VirtualArray %s, cache %s, generation %s: native %s; expected %s' % ('with a cache' if has_cache else 'without a cache', 'hit' if H else 'miss', 'fails' if F else 'succeeds', res, want), payload
+        return False, 'native VirtualArray agrees (%s)' % res, payload
+    return mdischarge(m, 'VirtualArray::array %s' % ('with a cache' if has_cache else 'without a cache'), obls, [('cache hit', usehit), ('generation fails', z3.And(z3.Not(usehit), genfails))] if has_cache else [('generation fails', genfails)],
+                      replay=replay, extra=dict(bounds='cache hit / miss and generator success / failure symbolic; cache and generator are opaque test doubles; key strings stubbed'))
+
+
 def jobs(tier):
-    return [(h_generate_and_check, (False,), 300), (h_generate_and_check, (True,), 300)]
+    return [(h_generate_and_check, (False,), 300), (h_generate_and_check, (True,), 300), (h_virtual_array, (True,), 300), (h_virtual_array, (False,), 300)]
